@@ -88,6 +88,76 @@ def check_counter_keys(fx, rep, rule):
     rep.floor(rule, n_keys, 2, "keyed accesses to the visit / fork counter tables")
 
 
+def counted_form(loop, b):
+    """The bound of a `while` loop, read off its body; None if none of the forms applies.
+    explicit-cut : a local stepped by a positive literal on every round (top level of the body) and compared (`>`/`>=`) with a value
+                   the loop does not change, in a test that leaves the loop / the function;
+    towards-zero : the condition is `x != 0` / `x > 0` and every round shifts x right or divides it by a literal >= 2 (top level);
+    grow-to-index: the condition is `i >= v.len()` with i unchanged, and every round pushes onto v (top level)."""
+    body = loop.get("body") or {}
+    iff = F.strip(body.get("expr") or {})
+    if iff.get("k") != "If" or "else" not in iff or not any(x.get("k") == "Break" for x, _ in F.walk(iff["else"])):
+        return None
+    cond = F.strip(iff["cond"])
+    then = F.strip(iff["then"])
+    blk = then.get("block") or {}
+    top = [F.strip(st["e"]) for st in blk.get("stmts", []) if st.get("s") == "Expr"]
+    tail = F.strip(blk["expr"]) if blk.get("expr") else None
+    mutated = T.mutated_locals(then)
+
+    def lit_int(x):
+        x = F.strip(x)
+        while x.get("k") in ("Cast",):
+            x = F.strip(x["e"])
+        if x.get("k") == "Lit" and x["value"].get("lit") == "int":
+            return int(x["value"]["v"])
+        if x.get("k") == "Call" and len(x.get("args", [])) == 1 and (F.callee_def(x) or "").split("::")[-1] in ("from", "from_le"):
+            return lit_int(x["args"][0])
+        if x.get("k") == "Path" and str(x.get("def", "")).endswith(("::ONE",)):
+            return 1
+        if x.get("k") == "Path" and str(x.get("def", "")).endswith(("::ZERO",)):
+            return 0
+        return None
+
+    def fixed(x):
+        x = F.strip(x)
+        if x.get("k") == "Path" and x.get("res") == "local":
+            return x["local"] not in mutated
+        return x.get("k") in ("Lit", "Path") or (x.get("k") == "MethodCall" and x["method"] in ("index",) and fixed(x["recv"]))
+
+    # explicit-cut
+    steps = {}
+    for e in top:
+        if e.get("k") == "AssignOp" and e.get("op") == "AddAssign" and F.local_of(e["l"]) is not None and (lit_int(e["r"]) or 0) > 0:
+            steps[F.local_of(e["l"])] = True
+    for e in top + ([tail] if tail else []):
+        if e and e.get("k") == "If" and "else" not in e and T.diverges(e["then"]):
+            c = F.strip(e["cond"])
+            if c.get("k") == "Binary" and c["op"] in ("Gt", "Ge") and F.local_of(c["l"]) in steps and fixed(c["r"]):
+                return "explicit-cut"
+            if c.get("k") == "Binary" and c["op"] in ("Lt", "Le") and F.local_of(c["r"]) in steps and fixed(c["l"]):
+                return "explicit-cut"
+    # towards-zero
+    if cond.get("k") == "Binary" and cond["op"] in ("Ne", "Gt") and F.local_of(cond["l"]) is not None and lit_int(cond["r"]) == 0:
+        x = F.local_of(cond["l"])
+        for e in top:
+            if e.get("k") == "AssignOp" and F.local_of(e["l"]) == x and ((e.get("op") == "ShrAssign" and (lit_int(e["r"]) or 0) >= 1) or (e.get("op") == "DivAssign" and (lit_int(e["r"]) or 0) >= 2)):
+                return "towards-zero"
+            if e.get("k") == "Assign" and F.local_of(e["l"]) == x:
+                r = F.strip(e["r"])
+                if r.get("k") == "Binary" and F.local_of(r["l"]) == x and ((r["op"] == "Shr" and (lit_int(r["r"]) or 0) >= 1) or (r["op"] == "Div" and (lit_int(r["r"]) or 0) >= 2)):
+                    return "towards-zero"
+    # grow-to-index
+    if cond.get("k") == "Binary" and cond["op"] in ("Ge", "Gt") and fixed(cond["l"]):
+        r = F.strip(cond["r"])
+        if r.get("k") == "MethodCall" and r["method"] == "len":
+            coll = T.short(T.term(r["recv"], T.Env()))
+            for e in top:
+                if e.get("k") == "MethodCall" and e["method"] in ("push", "push_back") and T.short(T.term(e["recv"], T.Env())) == coll:
+                    return "grow-to-index"
+    return None
+
+
 def check(fx, rep, tier):
     cg = F.CallGraph(fx)
     vm = VMModel(fx, cg)
@@ -478,6 +548,18 @@ def check(fx, rep, tier):
 
                 dep = row[1].split(":", 1)[1]
                 rep.oblige(dependency_holds(fx, dep), "R03.6", f"loop:{key}", F.loc(n["span"]), f"the loop in `{name}` ends only while the rules of {dep} hold ({row[2][:80]}...), and they currently report a violation", sample={"rule": "R03.6", "loop": key, "class": row[1]})
+                continue
+            if row is not None and row[1] == "counted":
+                # a reviewed `counted` loop keeps a bound that can be read off its body: the row's argument is re-checked
+                form = counted_form(n, b)
+                rep.oblige(
+                    form is not None,
+                    "R03.6",
+                    f"loop:{key}",
+                    F.loc(n["span"]),
+                    f"the loop in `{name}` is reviewed as counted ({row[2][:70]}...), but no bound can be read off it any more: neither a counter stepped on every round and compared with a fixed bound, nor a value shifted / divided towards the zero the condition waits for, nor a collection grown towards a fixed index",
+                    sample={"rule": "R03.6", "loop": key, "class": "counted", "bound": form},
+                )
                 continue
             rep.oblige(
                 row is not None,
